@@ -385,9 +385,24 @@ def check_many(case, rec, enum=False, mode="c08"):
         with observe("set_union_merge_many", rec):
             so.set_union_merge_many(list(arrays))
     else:
+        holder = list(arrays)
         with libcall("set_union_merge_many"):
-            got = so.set_union_merge_many(list(arrays))
+            got = so.set_union_merge_many(holder)
         _verify("set_union_merge_many", got, want, arrays, lists)
+        # the SAME list object, changed between two calls (a running union): the result depends on the
+        # list's contents now, not on what it held at an earlier call
+        if lists:
+            extra = sorted({(v * 7 + 3) % (TOP + 1) for v in lists[0][:3]} | {5, TOP - 2})
+            holder.append(_arr(extra))
+            if len(holder) > 2:
+                del holder[0]
+                rest = lists[1:] + [extra]
+            else:
+                rest = lists + [extra]
+            want2 = sorted(set().union(*[set(l) for l in rest]))
+            with libcall("set_union_merge_many (same list object, modified)"):
+                got2 = so.set_union_merge_many(holder)
+            _verify("set_union_merge_many (list modified between calls)", got2, want2, [], [])
     nonempty = [l for l in lists if l]
     rec.note("k=%d" % len(lists))
     dup = sum(len(l) for l in lists) != len(want)
